@@ -227,7 +227,9 @@ fn lf_one(cx: &mut Ctx, sel: u8, body: &[u8], rng: &mut Rng) {
         }
         2 => {
             tape_clear();
-            lf::case_cow(cx, &lossy(body));
+            let t = lossy(body);
+            lf::case_cow(cx, &t);
+            lf::case_cowk(cx, (sel >> 4) as usize, &t);
         }
         3 => {
             let d = f_doc(rng);
@@ -505,7 +507,8 @@ fn resp_one(cx: &mut Ctx, sel: u8, rng: &mut Rng) {
         let pre: Vec<(u16, Vec<u8>)> = (0..npre).map(|_| { let n = *rng.pick(&[4u16, 12, 12, 14, 27, 60]); let k = rng.below(4) as usize; (n, rng.bytes(k)) }).collect();
         let ntw = rng.below(3);
         let tweaks: Vec<resp::Tweak> = (0..ntw)
-            .map(|_| match rng.below(5) {
+            .map(|_| match rng.below(6) {
+                5 => resp::Tweak::Clr(*rng.pick(&[4u16, 12, 12, 14, 27, 60])),
                 0 => resp::Tweak::Mid(rng.below(65536) as u16),
                 1 => { let k = rng.below(9) as usize; resp::Tweak::Tok(rng.bytes(k)) }
                 2 => resp::Tweak::Typ(rng.below(4) as u8),
@@ -531,7 +534,12 @@ fn acc_one(cx: &mut Ctx, sel: u8, rng: &mut Rng) {
         }
         return;
     }
-    let named_cf = [0u64, 40, 41, 42, 47, 50, 60, 110, 11542, 11543, 65000];
+    static CFS: std::sync::OnceLock<Vec<u64>> = std::sync::OnceLock::new();
+    let named_cf = CFS.get_or_init(|| {
+        let reg = crate::tbl::load_registry();
+        let v: Vec<u64> = reg.tables.get("content_formats").map(|t| t.keys().cloned().collect()).unwrap_or_default();
+        if v.is_empty() { vec![0] } else { v }
+    });
     let n = 1 + rng.below(8) as usize;
     let mut ops: Vec<String> = vec![];
     for _ in 0..n {
@@ -541,11 +549,12 @@ fn acc_one(cx: &mut Ctx, sel: u8, rng: &mut Rng) {
                 let k = rng.below(6) as usize;
                 format!("addraw {} {}", num, hex(&rng.bytes(k)))
             }
-            1 | 2 => format!("path {}", hex(f_text(rng, 12).replace('\u{0}', "/").as_bytes())),
+            1 => format!("path {}", hex(f_text(rng, 12).replace('\u{0}', "/").as_bytes())),
+            2 => if rng.chance(1, 2) { "pathsame".to_string() } else { format!("path {}", hex(f_text(rng, 6).replace('\u{0}', "/").as_bytes())) },
             3 => format!("method {}", rng.below(256)),
             4 => format!("status {}", rng.below(256)),
             5 => format!("obsflag {}", rng.below(2)),
-            6 => format!("cf {}", rng.pick(&named_cf)),
+            6 => format!("cf {}", rng.pick(named_cf)),
             7 => format!("clr {}", rng.pick(&[6u16, 11, 12])),
             8 => "getpath".into(),
             9 => "getvec".into(),
